@@ -23,6 +23,7 @@ type verifSliceReader struct {
 	n        int
 	consumed int
 	released bool
+	holds    []int
 }
 
 type verifLB struct {
@@ -43,6 +44,7 @@ type verifLB struct {
 	callerMem [][]byte
 	argLo     int
 	argHi     int
+	lastWD, lastRemain int
 }
 
 // sizes are kept at or below mallocMax (8 MB) here; the >8 MB allocator bypass has its own harness
@@ -79,6 +81,7 @@ func (v *verifLB) addLease(p []byte, what string, owner int) {
 		return
 	}
 	id := verifBlockID(p)
+	verifAssert(verifGhostGet("pool.freed", id) == 0, "C02/result-in-freed-block")
 	verifGhostSet("lease", id, verifGhostGet("lease", id)+1)
 	v.leases = append(v.leases, verifLease{h: verifSnapshot(p), block: id, live: true, what: what, ofSlice: owner})
 }
@@ -157,14 +160,19 @@ func (v *verifLB) opWriteByte() {
 
 // WriteDirect(p, remain): insert p so that the last `remain` pending bytes come after it.
 // Contract: not mixed with WriteBinary/WriteString in the same batch; 0 <= remain <= pending.
-func (v *verifLB) opWriteDirect() {
+func (v *verifLB) opWriteDirect() { v.opWriteDirectR(0, verifMaxLen, 0, verifMaxLen) }
+
+func (v *verifLB) opWriteDirectR(nlo, nhi, rlo, rhi int) {
 	verifAssume(!v.pendBin)
 	n := verifNondetInt("wd.n")
-	verifAssume(n >= 0)
-	verifAssume(n <= verifMaxLen)
+	verifAssume(n >= nlo)
+	verifAssume(n <= nhi)
 	remain := verifNondetInt("wd.remain")
-	verifAssume(remain >= 0)
+	verifAssume(remain >= rlo)
+	verifAssume(remain <= rhi)
 	verifAssume(remain <= v.pendN)
+	verifAssume(!v.window)
+	v.lastWD, v.lastRemain = n, remain
 	p := verifNondetBytes("wd", n)
 	err := v.b.WriteDirect(p, remain)
 	verifAssert(err == nil, "C01/writedirect-err")
@@ -179,13 +187,15 @@ func (v *verifLB) opWriteDirect() {
 }
 
 func (v *verifLB) opMallocAck() {
+	// n ranges over the really pending bytes (MallocLen); already-flushed bytes of an appended
+	// donor wait in the same queue but are not subject to MallocAck
 	n := verifNondetInt("ack.n")
 	verifAssume(n >= 0)
-	verifAssume(n <= v.pendN)
+	verifAssume(n <= v.pendN-v.windowLen)
 	err := v.b.MallocAck(n)
 	verifAssert(err == nil, "C01/mallocack-err")
 	verifRopeTrunc(v.pend, n)
-	v.pendN = n
+	v.pendN = n + v.windowLen
 }
 
 func (v *verifLB) opFlush() {
@@ -196,6 +206,7 @@ func (v *verifLB) opFlush() {
 	v.pendN = 0
 	v.pendBin, v.pendDir = false, false
 	v.window = false
+	v.windowLen = 0
 }
 
 // Append(donor). Donor variants: 0 = small copied data, flushed; 1 = small data, still pending;
@@ -216,7 +227,7 @@ func (v *verifLB) opAppend(kind int) {
 	err := v.b.Append(d.b)
 	verifAssert(err == nil, "C01/append-err")
 	// committed bytes of the donor (none consumed) then its pending ones join our pending stream
-	verifRopeMove(v.pend, d.segs)
+	verifRopeMoveCommitted(v.pend, d.segs)
 	verifRopeMove(v.pend, d.pend)
 	v.pendN += d.flushed + d.pendN
 	if d.flushed > 0 {
@@ -358,8 +369,11 @@ func (v *verifLB) opRelease() {
 	verifAssert(err == nil, "C01/release-err")
 }
 
-func (v *verifLB) opSlice() {
+func (v *verifLB) opSlice() { v.opSliceMax(verifMaxLen) }
+
+func (v *verifLB) opSliceMax(max int) {
 	n := v.readArg("slice.n")
+	verifAssume(n <= max)
 	// "Slice will automatically execute a Release": results obtained earlier end here, but
 	// only when the call gets that far (n > 0 and enough data)
 	if n > 0 && n <= v.readable() {
@@ -377,7 +391,16 @@ func (v *verifLB) opSlice() {
 	verifAssert(err == nil, "C01/slice-err")
 	lb, ok := r.(*LinkBuffer)
 	verifAssert(ok && lb.Len() == n, "C01/slice-len")
-	v.slices = append(v.slices, verifSliceReader{r: lb, start: v.consumed, n: n})
+	sr := verifSliceReader{r: lb, start: v.consumed, n: n}
+	// the Slice reader shares the blocks of its nodes from now until its own Release
+	for nd := lb.head; nd != nil; nd = nd.next {
+		if len(nd.buf) > 0 {
+			id := verifBlockID(nd.buf)
+			verifGhostSet("hold", id, verifGhostGet("hold", id)+1)
+			sr.holds = append(sr.holds, id)
+		}
+	}
+	v.slices = append(v.slices, sr)
 	v.consumed += n
 }
 
@@ -411,7 +434,11 @@ func (v *verifLB) opSliceRelease() {
 	verifAssume(!v.slices[k].released)
 	// a Slice reader is released once it has been consumed (its Release frees what was read)
 	v.endLeases(k)
+	for _, id := range v.slices[k].holds {
+		verifGhostSet("hold", id, verifGhostGet("hold", id)-1)
+	}
 	v.slices[k].r.Release()
+	v.slices[k].released = true
 }
 
 // Read (readCopy): copy up to len(dst) bytes into caller memory.
@@ -501,11 +528,11 @@ const (
 func verifOpIsRead(op int) bool { return op >= verifOpNext && op != verifOpBookAck }
 
 func (v *verifLB) step(op int) {
+	verifLog("op", op)
 	// reads are forbidden between Append and the next Flush (WriteBuffer's doc comment)
 	if v.window && (verifOpIsRead(op) || op == verifOpBookAck) {
 		verifAssume(false)
 	}
-	verifLog("op", op)
 	v.argLo, v.argHi = -1, verifMaxLen
 	switch op {
 	case verifOpMalloc:
@@ -577,6 +604,22 @@ func (v *verifLB) drain() {
 	}
 	_, err := v.b.Next(1)
 	verifAssert(err != nil, "C01/drain-more-than-written")
+	// every Slice reader that was not released still delivers its bytes
+	for k := range v.slices {
+		s := &v.slices[k]
+		if s.released {
+			continue
+		}
+		left := s.n - s.consumed
+		verifAssert(s.r.Len() == left, "C01/drain-slice-len")
+		if left > 0 {
+			p, err := s.r.Next(left)
+			verifAssert(err == nil && len(p) == left, "C01/drain-slice-next")
+			verifAssert(v.matches(p, s.start+s.consumed), "C01/drain-slice-bytes")
+			s.consumed += left
+			v.addLease(p, "slice.next", k)
+		}
+	}
 	v.checkLeases()
 	verifScribblePool()
 	v.checkLeases()
